@@ -182,16 +182,15 @@ def run(repo: Repo, chk: Check):
     g = repo.mod("generate_code")
     runf = g.func("CompilerPassGatherCode.run")
     chk.saw("generate_code", runf.qual)
-    rcfg = CFG(runf)
-    appends = [n for n in rcfg.nodes if n.id in rcfg.reachable() and n.kind == "stmt" and any(
-        isinstance(c, ast.Call) and norm(c.func) == "self.code.append" for c in ast.walk(n.ast))]
-    if not appends:
+    from .shared import gather_model, emission_table
+    _, ems = gather_model(repo)
+    if not ems:
         raise AnalysisError("GatherCode.run: emission loop not found")
-    for a in appends:
-        gs = [(norm(t), p) for t, p in rcfg.guards(a.id) if isinstance(t, ast.expr)]
-        ok = any(t.endswith(".is_constexpr") and not p for t, p in gs)
+    for em in ems:
+        rows, _free = emission_table(em)
+        ok = not [a_ for a_, e_ in rows if e_ and a_["X"]]
         chk.judge("R12.b", "generate_code:GatherCode.run:constexpr functions are skipped", ok,
-                  f"lines of a function are emitted without excluding is_constexpr (guards {gs})", None, f"{g.path}:{a.ast.lineno}")
+                  f"lines of a function are emitted without excluding is_constexpr (guards {em.guard_text()})", None, f"{g.path}:{em.stmt.lineno}")
     hc = g.func("CompilerPassGenerateCode.handle_call")
     chk.saw("generate_code", hc.qual)
     hcfg = CFG(hc)
